@@ -800,7 +800,7 @@ def run(ctx):
                 % (3 if q else 4),
         traces='random sample sets of 4-24 samples, integer weights 0..9 (sum <= 40), values with ties, 2-3 fitted + 3 derived',
         sessions='TLC-generated lives of ONE optimizer (spec/PosteriorSession.tla): built with / without an observation, '
-                 'set_observed among 3 observations (two with the same number of bins on different grids, one with more bins), '
+                 'set_observed among 4 observations (three with the same number of bins on different grids, one with more bins), '
                  'fitted selection {T, H2O} / {planet_radius, T, H2O}, derived selection {logg, avg_T, mu} / {avg_T, mu}, %s; '
                  'jobs of %s processes (one forked process per rank, collectives pickled through a hub; nestle double), '
                  'MultiNest double in some one-process lives' %
